@@ -8,3 +8,5 @@ mkdir -p build evidence replays
 ( cd deps/verus-deps && cargo +1.98.1-x86_64-unknown-linux-gnu build --offline --quiet )
 ls "$CARGO_TARGET_DIR"/debug/deps/libbytes-*.rlib >/dev/null
 echo "setup ok"
+# pre-build the replayer (used only to attach a concrete input to an already reported violation)
+python3 -c "import sys; sys.path.insert(0,'tools'); import witness; witness.build()" || echo "replayer pre-build failed (non-fatal)"
